@@ -960,3 +960,160 @@ func init() {
 		return out
 	}})
 }
+
+func init() {
+	Scenarios = append(Scenarios, Scenario{Name: "S4-order-of-queries-and-batches-naming-two-of-three-relation-targets", Props: []string{"C12", "C03", "C06"}, Run: func() []string {
+		// An archetype with three relation components; many of its tables share the targets of the first two relations
+		// and differ in the third. Whatever names one, two or three targets (typed and unsafe queries, registered filters,
+		// Count, batch calls with their callbacks) must enumerate exactly the entities the scenario expects, and in the same
+		// order in every fresh world built by the same calls (which order that is, is the library's business).
+		var out []string
+		const worlds, tablesPerPair, perTable = 6, 9, 3
+		var first []string
+		for wi := 0; wi < worlds && len(out) == 0; wi++ {
+			w := ecs.NewWorld(4)
+			tm := ecs.NewMap1[u.P8](w)
+			var a, b [2]ecs.Entity
+			var c [tablesPerPair]ecs.Entity
+			for i := range a {
+				a[i], b[i] = tm.NewEntity(&u.P8{}), tm.NewEntity(&u.P8{})
+			}
+			for i := range c {
+				c[i] = tm.NewEntity(&u.P8{})
+			}
+			m := ecs.NewMap4[u.R0, u.R1, u.R2, u.P4](w)
+			// expected order per (a,b) pair: creation order of the tables, then of the rows
+			want := map[[2]int][]ecs.Entity{}
+			wantA := map[int][]ecs.Entity{}
+			var all []ecs.Entity
+			// creation order deliberately not sorted by target id
+			for _, k := range []int{4, 0, 7, 2, 8, 1, 6, 3, 5} {
+				for ai := range a {
+					for bi := range b {
+						for n := 0; n < perTable; n++ {
+							e := m.NewEntity(&u.R0{}, &u.R1{V: int64(k)}, &u.R2{V: int32(n)}, &u.P4{},
+								ecs.Rel[u.R0](a[ai]), ecs.Rel[u.R1](b[bi]), ecs.Rel[u.R2](c[k]))
+							want[[2]int{ai, bi}] = append(want[[2]int{ai, bi}], e)
+							wantA[ai] = append(wantA[ai], e)
+							all = append(all, e)
+						}
+					}
+				}
+			}
+			// C03: the entities are exactly the expected ones (as a set). C12: the order is whatever the library chooses, but
+			// the same in every world built by the same calls - every enumeration goes into the world's trace.
+			var trace []string
+			same := func(what string, got, exp []ecs.Entity) {
+				trace = append(trace, what+" "+fmt.Sprint(got))
+				if len(got) != len(exp) {
+					out = append(out, fmt.Sprintf("world %d: %s yields %d entities, expected %d", wi, what, len(got), len(exp)))
+					return
+				}
+				in := make(map[ecs.Entity]int, len(exp))
+				for _, e := range exp {
+					in[e]++
+				}
+				for i, e := range got {
+					if in[e] != 1 {
+						out = append(out, fmt.Sprintf("world %d: %s yields %v at position %d, which is not expected or was seen before", wi, what, e, i))
+						return
+					}
+					in[e]--
+				}
+			}
+			f3 := ecs.NewFilter3[u.R0, u.R1, u.R2](w)
+			f4c := ecs.NewFilter4[u.R0, u.R1, u.R2, u.P4](w).Register()
+			uf := ecs.NewUnsafeFilter(w, ecs.ComponentID[u.R0](w), ecs.ComponentID[u.R1](w), ecs.ComponentID[u.R2](w))
+			for rep := 0; rep < 4 && len(out) == 0; rep++ {
+				for ai := range a {
+					for bi := range b {
+						exp := want[[2]int{ai, bi}]
+						ra, rb := ecs.Rel[u.R0](a[ai]), ecs.Rel[u.R1](b[bi])
+						var got []ecs.Entity
+						q := f3.Query(ra, rb)
+						if n := q.Count(); n != len(exp) {
+							out = append(out, fmt.Sprintf("world %d: Count of Filter3 with two targets = %d, expected %d", wi, n, len(exp)))
+						}
+						for q.Next() {
+							got = append(got, q.Entity())
+						}
+						same("Filter3.Query(R0=a, R1=b)", got, exp)
+						got = got[:0]
+						q = f3.Query(rb, ra)
+						for q.Next() {
+							got = append(got, q.Entity())
+						}
+						same("Filter3.Query(R1=b, R0=a)", got, exp)
+						got = got[:0]
+						q4 := f4c.Query(ra, rb)
+						for q4.Next() {
+							got = append(got, q4.Entity())
+						}
+						same("registered Filter4.Query(R0=a, R1=b)", got, exp)
+						got = got[:0]
+						uq := uf.Query(ra, rb)
+						for uq.Next() {
+							got = append(got, uq.Entity())
+						}
+						same("UnsafeFilter.Query(R0=a, R1=b)", got, exp)
+						for i := 0; i < len(exp) && len(got) == len(exp); i++ {
+							uq = uf.Query(ra, rb)
+							e := uq.EntityAt(i)
+							uq.Close()
+							if e != got[i] {
+								out = append(out, fmt.Sprintf("world %d: EntityAt(%d) with two targets = %v, the query over the same filter had %v there", wi, i, e, got[i]))
+								break
+							}
+						}
+						// a batch call naming the two targets visits the same entities in the same order
+						got = got[:0]
+						pm := ecs.NewMap1[u.P2](w)
+						pm.AddBatchFn(f3.Batch(ra, rb), func(e ecs.Entity, p *u.P2) { got = append(got, e) })
+						same("AddBatchFn over Filter3.Batch(R0=a, R1=b)", got, exp)
+						got = got[:0]
+						pm.RemoveBatch(f3.Batch(ra, rb), func(e ecs.Entity) { got = append(got, e) })
+						same("RemoveBatch over Filter3.Batch(R0=a, R1=b)", got, exp)
+						// three targets: one table
+						for k := range c {
+							var exp3 []ecs.Entity
+							for _, e := range exp {
+								if m.GetRelation(e, 2) == c[k] {
+									exp3 = append(exp3, e)
+								}
+							}
+							got = got[:0]
+							q = f3.Query(ecs.Rel[u.R2](c[k]), rb, ra)
+							for q.Next() {
+								got = append(got, q.Entity())
+							}
+							same("Filter3.Query(R2=c, R1=b, R0=a)", got, exp3)
+						}
+					}
+					var got []ecs.Entity
+					q := f3.Query(ecs.Rel[u.R0](a[ai]))
+					for q.Next() {
+						got = append(got, q.Entity())
+					}
+					same("Filter3.Query(R0=a)", got, wantA[ai])
+				}
+				var got []ecs.Entity
+				q := f3.Query()
+				for q.Next() {
+					got = append(got, q.Entity())
+				}
+				same("Filter3.Query()", got, all)
+			}
+			if wi == 0 {
+				first = trace
+			} else if len(out) == 0 {
+				for i := range first {
+					if i >= len(trace) || first[i] != trace[i] {
+						out = append(out, fmt.Sprintf("world %d, built by the same calls as world 0, enumerates differently at step %d: %.300s / world 0: %.300s", wi, i, trace[min(i, len(trace)-1)], first[i]))
+						break
+					}
+				}
+			}
+		}
+		return out
+	}})
+}
